@@ -666,7 +666,13 @@ def mtl_programs(draw, max_shared=3, max_features=3, max_tasks=4, max_task_leave
         common_leaves.append(b.add_leaf(draw(shapes(max_rank=2, max_numel=6)), True))
     task_leaves, losses = [], []
     for t in range(n_tasks):
-        own = [b.add_leaf(draw(shapes(max_rank=2, max_numel=6)), True) for _ in range(int(rng.integers(0, max_task_leaves + 1)))]
+        f0 = feats[int(rng.integers(0, len(feats)))]
+        own = []
+        for _ in range(int(rng.integers(0, max_task_leaves + 1))):
+            # half of the task leaves have the shape of the feature they meet: `f + b1 + b2` makes autograd hand the
+            # SAME gradient tensor to b1 and b2 (aliasing matters for "a fresh .grad shares memory with nothing")
+            shp = list(f0["shape"]) if rng.integers(0, 2) else draw(shapes(max_rank=2, max_numel=6))
+            own.append(b.add_leaf(shp, True))
         listed = own + [c for c in common_leaves if rng.integers(0, 3) > 0]
         allowed = list(feats) + listed
         if around:
@@ -674,8 +680,13 @@ def mtl_programs(draw, max_shared=3, max_features=3, max_tasks=4, max_task_leave
         ok = lambda e, allowed=allowed: any(e is a for a in allowed)  # noqa: E731
         b.ops = list(HEAD_OPS)
         head = []
-        f0 = feats[int(rng.integers(0, len(feats)))]
-        if listed and rng.integers(0, 4) > 0:
+        same_shape = [p for p in listed if p["shape"] == f0["shape"]]
+        if len(same_shape) >= 1 and rng.integers(0, 2):
+            cur = f0
+            for p in same_shape[: int(rng.integers(1, 3))]:
+                cur = b.add_node({"op": "add", "coerce": "same"}, [cur, p])[0]
+                head.append(cur)
+        elif listed and rng.integers(0, 4) > 0:
             p0 = listed[int(rng.integers(0, len(listed)))]
             mode = "same" if p0["shape"] == f0["shape"] else ("reshape" if numel(p0["shape"]) == numel(f0["shape"]) else "sumall")
             head.extend(b.add_node({"op": ["mul", "add"][int(rng.integers(0, 2))], "coerce": mode}, [f0, p0]))
